@@ -280,5 +280,8 @@ func runC09(e *Engine, r *Report) {
 	ruleTanIndexAllNodes(e, r)
 	ruleAppendSetsRange(e, r)
 	ruleTanRemoveAll(e, r)
+	ruleSnapshotRecordKeepsLogEnd(e, r)
+	ruleRemoveNodeDataOrder(e, r)
+	ruleTanCompactionUpdate(e, r)
 	borrow(e, r, "C20", "MPT-import-batch")
 }
